@@ -5,6 +5,8 @@ package harness
 // input; it proves nothing.
 
 import (
+	"sync/atomic"
+	"os"
 	"encoding/json"
 	"context"
 	"errors"
@@ -27,10 +29,74 @@ type StressResult struct {
 // rounds actually run is what is reported (a run that hits the budget is not a failure).
 func BcastStress(n int, budget time.Duration) StressResult {
 	res := StressResult{Family: "bcast-stress", Kinds: map[string]int{}}
+	// no operation of the Broadcaster blocks for long in these loops (every blocked receive / publish is released
+	// by Close, Free or a cancellation the loop itself performs): no progress for 25 s of real time means an
+	// operation is stuck inside the Broadcaster (the goroutines cannot be unwound: report and leave)
+	var progress atomic.Int64
+	stopWatch := make(chan struct{})
+	defer close(stopWatch)
+	go func() {
+		last, since := int64(-1), time.Now()
+		for {
+			select {
+			case <-stopWatch:
+				return
+			case <-time.After(time.Second):
+			}
+			if p := progress.Load(); p != last {
+				last, since = p, time.Now()
+			} else if time.Since(since) > 25*time.Second {
+				fmt.Printf("\nSTRESSHANG an operation of the Broadcaster never returns (stress step %d made no progress for 25 s: a goroutine is stuck inside the Broadcaster, e.g. on its mutex)\n", p)
+				os.Exit(8)
+			}
+		}
+	}()
+	// a receiver's context may carry a cause (WithCancelCause / WithTimeoutCause / children of those): what the
+	// receive function returns when that context ends is the context's error, as for every other context
+	for k := 0; k < 4 && res.Violates == ""; k++ {
+		b := utils.NewBroadcaster[int]()
+		var ctx context.Context
+		var end func()
+		switch k {
+		case 0:
+			c, cn := context.WithCancelCause(context.Background())
+			ctx, end = c, func() { cn(errors.New("user navigated away")) }
+		case 1:
+			c, cn := context.WithTimeoutCause(context.Background(), 15*time.Millisecond, errors.New("budget exhausted"))
+			ctx, end = c, func() { time.Sleep(25 * time.Millisecond); _ = cn }
+		case 2:
+			parent, cn := context.WithCancelCause(context.Background())
+			c, cn2 := context.WithCancel(parent)
+			ctx, end = c, func() { cn(errors.New("parent gave up")); _ = cn2 }
+		default:
+			c, cn := context.WithCancel(context.Background())
+			ctx, end = c, cn
+		}
+		recv, err := b.Receive("k", ctx)
+		if err != nil {
+			res.Violates = fmt.Sprintf("cause check %d: Receive failed: %v", k, err)
+			break
+		}
+		got := make(chan error, 1)
+		go func() { _, err := recv(); got <- err }()
+		time.Sleep(2 * time.Millisecond)
+		end()
+		select {
+		case err := <-got:
+			if err != ctx.Err() {
+				res.Violates = fmt.Sprintf("a receiver whose context (kind %d: 0 cancelled with a cause, 1 timed out with a cause, 2 child of a context cancelled with a cause, 3 plain) ended got %q from its receive function, expected the context's error %q", k, fmt.Sprint(err), fmt.Sprint(ctx.Err()))
+			}
+		case <-time.After(3 * time.Second):
+			res.Violates = fmt.Sprintf("cause check %d: the receive function still blocks 3 s after its context ended", k)
+		}
+		b.Close(nil)
+	}
 	phaseEnd := time.Now().Add(budget)
 	within := func(i int) bool { return i%64 != 0 || time.Now().Before(phaseEnd) }
 	for i := 0; i < n && res.Violates == "" && within(i); i++ {
+		progress.Add(1)
 		res.Iterations++
+		progress.Add(1)
 		b := utils.NewBroadcaster[int]()
 		ctx, cancel := context.WithCancel(context.Background())
 		var rr func() (*int, error)
@@ -91,6 +157,7 @@ func BcastStress(n int, budget time.Duration) StressResult {
 	// many pending receivers whose owners free their keys as soon as they are woken, while Close walks the table
 	phaseEnd = time.Now().Add(budget)
 	for i := 0; i < n/200+3 && res.Violates == "" && time.Now().Before(phaseEnd); i++ {
+		progress.Add(1)
 		b := utils.NewBroadcaster[int]()
 		const many = 192
 		var wg sync.WaitGroup
@@ -127,6 +194,7 @@ func BcastStress(n int, budget time.Duration) StressResult {
 	// exists afterwards is known to the table, so Close releases its receive function
 	phaseEnd = time.Now().Add(budget)
 	for i := 0; i < n && res.Violates == "" && within(i); i++ {
+		progress.Add(1)
 		res.Kinds["free-race-rounds"]++
 		b := utils.NewBroadcaster[int]()
 		if _, err := b.Receive("k", context.Background()); err != nil {
@@ -175,6 +243,7 @@ func BcastStress(n int, budget time.Duration) StressResult {
 	// over: it must return its own key's cancellation, never the other key's value
 	phaseEnd = time.Now().Add(budget)
 	for i := 0; i < n && res.Violates == "" && within(i); i++ {
+		progress.Add(1)
 		res.Kinds["stale-rounds"]++
 		b := utils.NewBroadcaster[string]()
 		ctx := context.Background()
